@@ -112,6 +112,14 @@ impl GroupB {
                 },
             },
             "C06" => {
+                if k % 400 == 7 {
+                    // A literal at, just above or just below the size limit, alone or next to
+                    // siblings of variable size, at varied positions and nesting.
+                    let n = *rng.pick(&[0xFFFEusize, 0xFFFF, 0x10000, 0x10001, 0x10010]);
+                    let lit = "a".repeat(n);
+                    let t = *rng.pick(&["@", "@*", "*/@", "@/**", "doc/@/*.txt", "@{a,bb}", "x/{@*,b}", "<@$:1,2>", "{@,b}", "@/b", "(?i)@*", "**/@", "@?"]);
+                    return t.replace('@', &lit);
+                }
                 if k % 3 == 0 {
                     let mut g = gexpr::Gen {
                         rng: &mut rng,
@@ -890,9 +898,33 @@ fn c18_text(s: &str, idx: usize, ctx: &Ctx, rpt: &mut Report) {
             json!({"text": clip(s), "escaped": clip(&escaped)}),
         );
     }
+    // The same text handed over as a native path and as an OS string.
+    for (route, m) in [
+        ("Path", guarded(|| glob.is_match(std::path::Path::new(s)))),
+        ("OsStr", guarded(|| glob.is_match(std::ffi::OsStr::new(s)))),
+    ] {
+        rpt.evaluations += 1;
+        if m == Some(false) {
+            rpt.disagreement(
+                &ctx.known,
+                "escaped-text-does-not-match-the-text",
+                None,
+                json!({"text": clip(s), "escaped": clip(&escaped), "candidate_given_as": route}),
+            );
+        }
+    }
     let alphabet: Vec<char> = s.chars().take(16).collect();
     let mut others = 0;
     let mut tried: Vec<String> = Vec::new();
+    if s.len() < 200 && !s.is_empty() {
+        // Spellings that a path library may consider "the same path".
+        tried.push(format!("{}/", s));
+        tried.push(format!("{}/.", s));
+        tried.push(format!("./{}", s));
+        if let Some(t) = s.strip_suffix('/') {
+            tried.push(t.to_string());
+        }
+    }
     for _ in 0..16 {
         tried.push(gpath::mutate(&mut rng, s, &alphabet));
     }
@@ -917,6 +949,14 @@ fn c18_text(s: &str, idx: usize, ctx: &Ctx, rpt: &mut Report) {
                 "escaped-text-matches-another-path",
                 None,
                 json!({"text": clip(s), "escaped": clip(&escaped), "other": clip(&x)}),
+            );
+        }
+        else if !x.contains("//") && guarded(|| glob.is_match(std::path::Path::new(x.as_str()))) == Some(true) {
+            rpt.disagreement(
+                &ctx.known,
+                "escaped-text-matches-another-path",
+                None,
+                json!({"text": clip(s), "escaped": clip(&escaped), "other": clip(&x), "candidate_given_as": "Path"}),
             );
         }
     }
